@@ -441,6 +441,10 @@ class Generator(AbstractODSGenerator):
 
         self._setup_text_data(country)
 
+        # The year-to-row map is shared by all assets of one report, but not by reports: start each report with an empty one, otherwise
+        # a year whose rows are all hidden by the time filters is linked to the row it had in a report generated earlier by this process
+        self.__tax_sheet_year_2_row = {}
+
         template_path: str = self._get_template_path("rp2_full_report", country, generation_language)
 
         output_file: Any
